@@ -473,9 +473,10 @@ def _replay_slice(job):
     w0 = build_world(st0, blocks)
     bad, count, acts = [], 0, collections.Counter()
     obs_ok, differs, obs_sample = collections.Counter(), collections.Counter(), {}
-    stack = [(root, w0, [], True)]
+    below, extra = [0], [0]
+    stack = [(root, w0, [], True, False, True)]
     while stack:
-        fp, w, path, is_root = stack.pop()
+        fp, w, path, is_root, cache_off, counted = stack.pop()
         for ei, (tgt, label) in enumerate(edges.get(fp, ())):
             if is_root and ei % SLICES != part:
                 continue
@@ -484,8 +485,11 @@ def _replay_slice(job):
             name, a = parse_label(label)
             w2 = copy.deepcopy(w)
             err = apply_action(w2, name, a)
-            count += 1
-            acts[name] += 1
+            if counted:
+                count += 1
+                acts[name] += 1
+            else:
+                extra[0] += 1
             tst = state(tgt)
             diff, book = compare(tst, w2, err, blocks)
             if diff:
@@ -493,16 +497,30 @@ def _replay_slice(job):
                     bad.append({'config': cfg, 'init': common.jsonable({'mols': [strip_all(m) for m in st0['mols']], 'sys': st0['sys']}),
                                 'path': path + [label], 'diff': diff})
                 continue
+            if cache_off:
+                book = [f for f in book if f != 'cache']
             for f in book:
                 differs['%s:differs:%s' % (name, f)] += 1
                 obs_sample.setdefault('differs:' + f, {'config': cfg, 'path': path + [label]})
-            if book:
-                continue       # the real bookkeeping left the model here: the subtree would repeat the same difference
-            for c in tst['obs']:
-                obs_ok['%s:%s' % (name, c)] += 1
-                obs_sample.setdefault(c, {'config': cfg, 'path': path + [label]})
+            if [f for f in book if f != 'cache']:
+                below[0] += 1
+                continue       # meta / citations / log entries left the model here: the subtree would repeat the same difference
+            if not book and counted:
+                for c in tst['obs']:
+                    obs_ok['%s:%s' % (name, c)] += 1
+                    obs_sample.setdefault(c, {'config': cfg, 'path': path + [label]})
+            if not counted:
+                continue
             if parent_edge.get(tgt) == (fp, label):
-                stack.append((tgt, w2, path + [label], False))
+                stack.append((tgt, w2, path + [label], False, cache_off or 'cache' in book, True))
+            elif 'cache' in book:
+                # the real object carries a cache the model state does not have: what it does to the NEXT call is the
+                # statement's business, so the successors of this state are replayed from this object too (not counted)
+                stack.append((tgt, w2, path + [label], False, True, False))
+    if extra[0]:
+        differs['(transitions replayed once more below a cache difference)'] = extra[0]
+    if below[0]:
+        differs['(subtrees not replayed below a bookkeeping difference)'] = below[0]
     return count, bad, dict(acts), dict(obs_ok), dict(differs), obs_sample
 
 
@@ -615,7 +633,7 @@ def absorb_replay(jobs, outs, info, ev, vd):
             for b in bad:
                 vd.violation('replay-mismatch', b, b['diff'])
                 broken.add(cfg)
-            if differs:
+            if differs.get('(subtrees not replayed below a bookkeeping difference)'):
                 broken.add(cfg)
             note_book(ev, obs_ok, differs, samples)
         elif job[0] == 'behaviours':
@@ -688,6 +706,7 @@ def _replay_behaviours(job):
         w = build_world(st0, blocks)
         path = []
         n += 1
+        cache_off = False
         for act, a, st in beh[1:]:
             args = tlaval.parse('<<' + (a or '') + '>>')
             err = apply_action(w, act, args)
@@ -698,11 +717,16 @@ def _replay_behaviours(job):
             if diff:
                 bad.append({'config': cfg, 'init': common.jsonable({'mols': list(st0['mols']), 'sys': st0['sys']}), 'path': path, 'diff': diff})
                 break
+            if cache_off:
+                book = [fld for fld in book if fld != 'cache']
             for fld in book:
                 differs['%s:differs:%s' % (act, fld)] += 1
                 samples.setdefault('differs:' + fld, {'config': cfg, 'path': list(path)})
-            if book:
-                break          # the real bookkeeping left the model: later steps would repeat the same difference
+            if [fld for fld in book if fld != 'cache']:
+                break          # meta / citations / log entries left the model: later steps would repeat the same difference
+            if 'cache' in book:
+                cache_off = True     # followed further: what a wrong cache does to later merges is the statement's business
+                continue
             for c in st['obs']:
                 obs_ok['%s:%s' % (act, c)] += 1
         seen.add(tuple(path))
@@ -1246,12 +1270,13 @@ def _patched_runs():
     out = []
     book = probe_bookkeeping()
 
+    ev0 = common.Evidence(PID, 'quick', 0)
+    jobs, info = tlc_phase('quick', 0, book, ev0, with_sim=False)         # the graphs once, replayed under every patch
+
     def run_cfgs():
-        ev = common.Evidence(PID, 'quick', 0)
-        vd = common.Verdicts(PID, ev)
-        vd.violation = lambda kind, scenario, detail='': vd.violations.append((kind, None, detail))
-        model_check('quick', book, ev, vd)
-        return vd.violations
+        with mp.Pool(tlc.NCPU) as pool:                                   # forked after the patch: the workers see it
+            outs = pool.map(_dispatch, jobs, chunksize=1)
+        return [(b['config'], None, b['diff']) for o in outs for b in o[1]]
 
     orig_sub = vm.Molecule.subgraph
 
@@ -1281,7 +1306,9 @@ def _patched_runs():
         finally:
             setattr(target, attr, old)
         assert v, 'patched implementation not noticed: ' + label
-        out.append('%s -> %d replay mismatches, first: %s' % (label, len(v), v[0][2][:90]))
+        out.append('%s -> replay mismatches in %s, first: %s' % (label, sorted({x[0] for x in v}), v[0][2][:90]))
+    _SHARED.clear()
+    shutil.rmtree(info['work'], ignore_errors=True)
     return out
 
 
